@@ -3,7 +3,7 @@ From Coq Require Import ZArith List Bool Arith Permutation.
 From SP Require Import Model.Num Model.Arrow Model.Bounds Model.Rtree Model.DaskModel
                        Spec.BoundsSpec Spec.DaskSpec
                        Proofs.DaskProofs Proofs.DaskMapProofs Proofs.DaskCxProofs
-                       Proofs.DaskSjoinProofs.
+                       Proofs.DaskSjoinProofs Proofs.DaskCacheProofs Proofs.DaskRtreeBridge.
 Import ListNotations.
 Local Open Scope nat_scope.
 
@@ -84,6 +84,42 @@ Theorem C06_cx :
 Proof. exact cx_concat. Qed.
 Print Assumptions C06_cx.
 
+(* ---- the same with the two contracts on the partition-level index discharged by the
+   C03 theorems (Proofs/RtreeProofs.v: C03_split, C03_intersects_In,
+   overlapsb_row_outside, C03_total_bounds_box) ---- *)
+Theorem C06_rtree_select_contract_holds : rtree_select_contract.
+Proof. exact rtree_select_holds. Qed.
+Print Assumptions C06_rtree_select_contract_holds.
+
+Theorem C06_rtree_total_contract_holds : rtree_total_contract.
+Proof. exact rtree_total_holds. Qed.
+Print Assumptions C06_rtree_total_contract_holds.
+
+Theorem C06_cx_closed :
+  forall (R : Type) (rbox : R -> bbox) (hits : R -> list Z -> bool),
+    hits_contract rbox hits ->
+    forall (parts : list (list R)) (keys : list nat),
+      (forall r, In r (concat parts) -> wf_bbox (rbox r)) ->
+      Permutation keys (seq 0 (length parts)) ->
+      forall k,
+        concat (dask_cx R rbox hits parts keys k) =
+        pandas_frame_cx R rbox hits (concat parts) k.
+Proof. exact cx_concat_closed. Qed.
+Print Assumptions C06_cx_closed.
+
+Theorem C06_cx_partitions_superset_closed :
+  forall (R : Type) (rbox : R -> bbox) (hits : R -> list Z -> bool),
+    hits_contract rbox hits ->
+    forall (parts : list (list R)) (keys : list nat),
+      (forall r, In r (concat parts) -> wf_bbox (rbox r)) ->
+      Permutation keys (seq 0 (length parts)) ->
+      forall k q r,
+        finite_query (get_bounds (box_row (pandas_total_bounds R rbox (concat parts))) k) = Some q ->
+        In r (concat parts) -> hits r q = true ->
+        In r (concat (dask_cx_partitions R rbox parts keys k)).
+Proof. exact cx_partitions_superset_closed. Qed.
+Print Assumptions C06_cx_partitions_superset_closed.
+
 (* ---- sjoin ---- *)
 Theorem C06_sjoin :
   forall (L Rr : Type) (lbox : L -> bbox) (rrbox : Rr -> bbox) (rmissing : Rr -> bool)
@@ -95,6 +131,24 @@ Theorem C06_sjoin :
                   (pandas_sjoin L Rr lbox rrbox rmissing geo_int how (concat parts) rs).
 Proof. exact sjoin_concat. Qed.
 Print Assumptions C06_sjoin.
+
+(* ---- the partition-bounds cache (keyed by geometry name) ---- *)
+(* with a coherent cache the partition index is built from the real partition bounds and
+   the cache stays coherent *)
+Theorem C06_cache_partition_sindex : forall c f name,
+  cache_coherent c f ->
+  fst (frame_partition_bounds c name (f name)) = f name /\
+  cache_coherent (snd (frame_partition_bounds c name (f name))) f.
+Proof. exact frame_partition_bounds_coherent. Qed.
+Print Assumptions C06_cache_partition_sindex.
+
+(* __getitem__ propagation keeps the cache coherent: a column list keeps the rows; every
+   other frame-valued key (row filtering) inherits nothing *)
+Theorem C06_cache_getitem : forall c f f' k,
+  cache_coherent c f -> (k = KList -> forall n, f' n = f n) ->
+  cache_coherent (getitem_frame_cache c k) f'.
+Proof. exact getitem_frame_cache_coherent. Qed.
+Print Assumptions C06_cache_getitem.
 
 (* ---- non-vacuity: the model on a concrete frame.  Three partitions: an
    all-missing one, one inside the box, one outside; keys in index order.  Row 1
